@@ -9,6 +9,7 @@ import (
 	"log/slog"
 	"math/rand"
 	"os"
+	"os/exec"
 	"path/filepath"
 	"sort"
 	"strings"
@@ -213,6 +214,8 @@ var c10AllCfgs = func() []string {
 	}
 	// a cache so small that entries are evicted all the time, and no cache at all
 	out = append(out, "lazy=aggr,batch=2,samp=3,cache=tiny", "lazy=off,batch=2,samp=1,cache=tiny", "lazy=aggr,batch=10000,samp=32,cache=none")
+	// small estimated max chunk sizes (see the chunk-fetch cases)
+	out = append(out, "lazy=off,batch=10000,samp=1,cache=big,chunkest=16", "lazy=aggr,batch=1,samp=3,cache=none,chunkest=24")
 	return out
 }()
 
@@ -432,7 +435,7 @@ func TestC10(t *testing.T) {
 				}
 			}
 			cfgs := []string{"lazy=aggr,batch=1,samp=1,cache=big", "lazy=aggr,batch=10000,samp=3,cache=big", "lazy=off,batch=2,samp=1,cache=big",
-				"lazy=on,batch=10000,samp=32,cache=big", "lazy=aggr,batch=2,samp=3,cache=tiny", "lazy=aggr,batch=3,samp=1,cache=none"}
+				"lazy=on,batch=10000,samp=32,cache=big", "lazy=aggr,batch=2,samp=3,cache=tiny", "lazy=aggr,batch=3,samp=1,cache=none", "lazy=off,batch=10000,samp=1,cache=big,chunkest=16"}
 			c := c10Case{Blocks: blocks, Cr: cr, Qs: qs, Cfgs: cfgs, WantLazy: true}
 			yield(c10ToCase(c))
 		}
@@ -557,8 +560,46 @@ func TestC10(t *testing.T) {
 				}
 				eps = append(eps, c10Epoch{Present: present, Nq: n})
 			}
-			cfgs := []string{"lazy=off,batch=10000,samp=1,cache=big", "lazy=aggr,batch=1,samp=3,cache=big", "lazy=aggr,batch=2,samp=32,cache=tiny"}
+			cfgs := []string{"lazy=off,batch=10000,samp=1,cache=big", "lazy=aggr,batch=1,samp=3,cache=big", "lazy=aggr,batch=2,samp=32,cache=tiny",
+				"lazy=off,batch=10000,samp=1,cache=none,chunkest=64"}
 			yield(c10ToCase(c10Case{Blocks: blocks, Cr: 2 * hour, Qs: qs, Cfgs: cfgs, Epochs: eps}))
+		}
+		// --- chunk fetch: partitioned range reads with a size estimate and a refetch of the remainder ---
+		// Several chunks per series, adjacent in one segment file (one partition), small (1-2 samples)
+		// and large (60-100 samples of incompressible values) mixed; stores with estimated max chunk
+		// sizes of 16 / 48 / 300 bytes, so that chunks are larger than the estimate in every position
+		// of a partition (first, middle, last; followed by a small or a large chunk).
+		for wi := 0; wi < vt.Pick(4, 20); wi++ {
+			var series []c10Series
+			for si := 0; si < 3+rnd.Intn(4); si++ {
+				l := map[string]string{"job": "j", "id": fmt.Sprintf("s%02d", si), "n0": []string{"a", "b"}[si%2]}
+				var smp [][2]int64
+				for k := 0; k < 5; k++ {
+					switch rnd.Intn(4) {
+					case 0: // no chunk in this slot
+					case 1:
+						smp = append(smp, [2]int64{int64(k)*cr + 100, int64(si)}, [2]int64{int64(k)*cr + 600, int64(si + 1)})
+					default:
+						n := 60 + rnd.Intn(41)
+						for j := 0; j < n; j++ {
+							smp = append(smp, [2]int64{int64(k)*cr + int64(j)*9 + int64(rnd.Intn(5)), rnd.Int63n(1 << 40)})
+						}
+					}
+				}
+				if len(smp) == 0 {
+					smp = append(smp, [2]int64{300, 1})
+				}
+				series = append(series, c10Series{Ls: l, Samples: smp})
+			}
+			blocks := []c10Block{{Ext: map[string]string{"ext": "e1"}, Series: series}}
+			sels := [][]c10Matcher{{{"job", "EQ", "lit", []string{"j"}}}, {{"n0", "EQ", "lit", []string{"a"}}}, {{"id", "RE", "nonempty", nil}, {"n0", "NEQ", "lit", []string{"a"}}}}
+			var qs []c10Query
+			for _, r := range [][2]int64{{-10, 10000}, {0, 1999}, {1000, 3999}, {2500, 2600}, {4000, 9000}, {999, 1000}} {
+				qs = append(qs, c10Query{Ms: sels[rnd.Intn(len(sels))], Mint: r[0], Maxt: r[1]})
+			}
+			cfgs := []string{"lazy=off,batch=10000,samp=1,cache=none,chunkest=16", "lazy=off,batch=1,samp=1,cache=big,chunkest=16",
+				"lazy=off,batch=10000,samp=3,cache=big,chunkest=48", "lazy=aggr,batch=2,samp=1,cache=none,chunkest=300", "lazy=off,batch=10000,samp=1,cache=big"}
+			yield(c10ToCase(c10Case{Blocks: blocks, Cr: cr, Qs: qs, Cfgs: cfgs}))
 		}
 		// --- bigger seeded worlds ---
 		for wi := 0; wi < vt.Pick(6, 30); wi++ {
@@ -629,7 +670,94 @@ func TestC10(t *testing.T) {
 			yield(c10ToCase(c10Case{Blocks: blocks, Cr: cr, Qs: qs, Cfgs: pickCfgs(vt.Pick(6, 10))}))
 		}
 	}
-	vt.Run(t, gen, c10KnownFinding, func(c vt.Case) vt.Event { return runC10(t, c) })
+	vt.Run(t, gen, c10KnownFinding, func(c vt.Case) vt.Event {
+		if c10Isolate(c) {
+			return runC10Child(t, c)
+		}
+		ev := runC10(t, c)
+		ev["crash"] = ""
+		return ev
+	})
+}
+
+// c10Isolate: cases with small-chunk-estimate stores run in a child process. A wrong chunk offset
+// makes the store decode garbage, and the resulting panic happens in a goroutine of the store
+// (response set), where the harness cannot recover it: the child dies, the parent records it.
+func c10Isolate(c vt.Case) bool {
+	for _, cfg := range vt.List(c["cfgs"]) {
+		if strings.Contains(vt.Str(cfg), "chunkest") {
+			return true
+		}
+	}
+	return false
+}
+
+func runC10Child(t *testing.T, c vt.Case) vt.Event {
+	scratch := os.Getenv("VERIF_SCRATCH")
+	if scratch == "" {
+		scratch = t.TempDir()
+	}
+	dir, err := os.MkdirTemp(scratch, "c10child-")
+	if err != nil {
+		t.Fatal(err)
+	}
+	defer os.RemoveAll(dir)
+	in, out := filepath.Join(dir, "case.json"), filepath.Join(dir, "event.json")
+	b, _ := json.Marshal(c)
+	if err := os.WriteFile(in, b, 0o600); err != nil {
+		t.Fatal(err)
+	}
+	cmd := exec.Command(os.Args[0], "-test.run", "^TestC10Child$", "-test.timeout", "600s")
+	cmd.Env = append(os.Environ(), "VERIF_CHILD_CASE="+in, "VERIF_CHILD_OUT="+out, "VERIF_SCRATCH="+dir)
+	output, runErr := cmd.CombinedOutput()
+	if eb, err := os.ReadFile(out); err == nil && runErr == nil {
+		var ev vt.Event
+		dec := json.NewDecoder(strings.NewReader(string(eb)))
+		dec.UseNumber()
+		if err := dec.Decode(&ev); err == nil {
+			ev["crash"] = ""
+			return ev
+		}
+	}
+	// the process that ran the stores died
+	msg := "child process failed"
+	for _, line := range strings.Split(string(output), "\n") {
+		if strings.HasPrefix(line, "panic:") || strings.HasPrefix(line, "fatal error:") || strings.Contains(line, "c10_test.go") && strings.Contains(line, "c10:") {
+			msg = strings.TrimSpace(line)
+			break
+		}
+	}
+	if len(msg) > 300 {
+		msg = msg[:300]
+	}
+	return vt.Event{"blocks": []any{}, "qs": []any{}, "syncerrs": []string{}, "ds": false, "crash": msg,
+		"stats": map[string]any{"lazy_applied": 0, "expanded_postings_cache_hits": 0, "stores": 0}}
+}
+
+// TestC10Child runs one case in this (child) process; see runC10Child.
+func TestC10Child(t *testing.T) {
+	in, out := os.Getenv("VERIF_CHILD_CASE"), os.Getenv("VERIF_CHILD_OUT")
+	if in == "" || out == "" {
+		t.Skip("only run as a child of TestC10")
+	}
+	b, err := os.ReadFile(in)
+	if err != nil {
+		t.Fatal(err)
+	}
+	var c vt.Case
+	dec := json.NewDecoder(strings.NewReader(string(b)))
+	dec.UseNumber()
+	if err := dec.Decode(&c); err != nil {
+		t.Fatal(err)
+	}
+	ev := runC10(t, c)
+	eb, err := json.Marshal(ev)
+	if err != nil {
+		t.Fatal(err)
+	}
+	if err := os.WriteFile(out, eb, 0o600); err != nil {
+		t.Fatal(err)
+	}
 }
 
 func c10Uniq(in []string) []string {
@@ -1008,6 +1136,19 @@ func runC10(t *testing.T, c vt.Case) vt.Event {
 				store.WithSeriesMatchRatio(0.5), store.WithPostingGroupMaxKeySeriesRatio(0.2))
 		} else if kv["lazy"] == "on" {
 			opts = append(opts, store.WithSeriesMatchRatio(0.5))
+		}
+		// a bounded chunk pool, as a real store gateway has (--chunk-pool-size): a nonsensical chunk
+		// length must surface as a failed request (an observation), not take the process down
+		cp, err := store.NewDefaultChunkBytesPool(64 << 20)
+		if err != nil {
+			t.Fatalf("c10: chunk pool: %v", err)
+		}
+		opts = append(opts, store.WithChunkPool(cp))
+		if v := kv["chunkest"]; v != "" {
+			// a small estimated max chunk size: ordinary chunks are "oversized" for loadChunks, which then
+			// has to complete them with a second read while other chunks of the same partition follow
+			n := uint64(vt.Int(v))
+			opts = append(opts, store.WithBlockEstimatedMaxChunkFunc(func(metadata.Meta) uint64 { return n }))
 		}
 		bs, err := world.NewBucketStore(ctx, bkt, filepath.Join(dir, fmt.Sprintf("store-%d", i)), world.BucketOpts{
 			LazyPostings: kv["lazy"] != "off", BatchSize: vt.Int(kv["batch"]), PostingOffsetsInMemSampling: vt.Int(kv["samp"]), Options: opts,
